@@ -128,10 +128,11 @@ def r1_prediagnosis(report, repo):
     marg = _assign_nodes(p, 'self.phase_record.marginal') + _assign_nodes(
         p, 'self.marginal')
     if want == 'PASS':
-      ok = len(marg) == 1 and call_name(marg[0].ast.value) == \
-          'self._measurements_marginal'
+      ok = len(marg) == 1 and lib.is_any_over_values(
+          marg[0].ast.value, 'marginal', 'measurements')
       if not ok:
-        return 'marginal: PASS must set marginal from _measurements_marginal()'
+        return ('marginal: PASS must set marginal to any(meas.marginal) over '
+                'all measurements of the phase')
     elif marg:
       return 'marginal: marginal assigned on a non-PASS row'
     return None
